@@ -8,6 +8,7 @@ package c03
 
 import (
 	"fmt"
+	"runtime"
 	"sort"
 	"strings"
 	"sync"
@@ -860,6 +861,76 @@ func runTee(c *core.Ctx) {
 	}
 }
 
+// ---------------------------------------------------------------- LimitMemory
+
+// limitWaitBound: LimitMemory gives up waiting for memory after 10^4 scheduler yields and delivers
+// the batch anyway. The monitor counts the waiting steps of the current batch (hook event
+// "limitmemory.wait") and decides "never delivers" on a count of logical steps, 20 times that figure,
+// not on a clock; the spinning goroutine is then stopped from inside the hook.
+const limitWaitBound = 200000
+
+func runLimitMemory(c *core.Ctx) {
+	for i, p := range plans(c, "r") {
+		// fraction 1: the limit is never exceeded. fraction 1e-12: it always is, for ever (the
+		// situation of a host whose memory stays full): every batch must still be delivered
+		pressure := i%3 == 0 && len(p.parts) <= 5
+		fraction := 1.0
+		if pressure {
+			fraction = 1e-12
+		}
+		var obs []itx.Obs
+		label := fmt.Sprintf("limitmemory:%v:%s", pressure, shapeClass(p.sizes))
+		c.Risk(label)
+		stuck := make(chan struct{})
+		var waits, maxWait int64
+		obiverif.SetEventHook(func(site string, v []int) {
+			if site != "limitmemory.wait" || len(v) == 0 {
+				return
+			}
+			waits++
+			if int64(v[0]) > maxWait {
+				maxWait = int64(v[0])
+			}
+			if v[0] > limitWaitBound {
+				close(stuck)
+				runtime.Goexit()
+			}
+		})
+		isStuck := false
+		ok := c.Bounded(label, 3*wd, func() {
+			done := make(chan struct{})
+			go func() { obs = itx.Drain(itx.Feed(p.parts, p.perm).LimitMemory(fraction)); close(done) }()
+			select {
+			case <-done:
+			case <-stuck:
+				isStuck = true
+			}
+		})
+		obiverif.SetEventHook(nil)
+		if !ok {
+			return
+		}
+		p.key(c, "limitmemory", pressure)
+		c.Count("limitmemory_wait_steps_observed", int(waits))
+		if isStuck {
+			c.Violate("never-delivers:persistent-pressure", fmt.Sprintf("LimitMemory is still waiting on the same batch after %d waiting steps: under persistent memory pressure the stream never ends", limitWaitBound), p.detail(nil))
+			return
+		}
+		if pressure && len(p.parts) > 0 && maxWait == 0 {
+			c.Inconclusive("the memory-pressure branch of LimitMemory was not reached")
+		}
+		p.sample(c, "LimitMemory", obs)
+		if !itx.SameNumbers(obs, numbers(len(p.parts))) {
+			c.Violate("numbering", "LimitMemory: the output does not carry the batch numbers of the input", p.detail(obs))
+			continue
+		}
+		if d := itx.CompareSeq(itx.ByNumber(obs), itx.IDs(p.recs)); d != "" {
+			c.Violate(d, "LimitMemory: records lost, duplicated or reordered", p.detail(obs))
+			continue
+		}
+	}
+}
+
 func runBatchOver(c *core.Ctx) {
 	for rep := 0; rep < c.Pick(8, 30); rep++ {
 		n := []int{0, 1, 2, 5, 9, 17}[c.Rng.Intn(6)]
@@ -1006,6 +1077,7 @@ func init() {
 			{Name: "merge", N: n(42, 140), Run: runMerge},
 			{Name: "completefile", N: n(42, 140), Run: runLoad},
 			{Name: "copytee", N: n(42, 140), Run: runTee},
+			{Name: "limitmemory", N: n(21, 84), Run: runLimitMemory},
 			{Name: "ibatchover", N: n(16, 64), Run: runBatchOver},
 			{Name: "readfiles", N: n(32, 128), Run: runFiles, Race: true, NRace: n(12, 48)},
 			{Name: "compose", N: n(96, 480), Run: runCompose, Race: true, NRace: n(24, 96)},
